@@ -170,9 +170,9 @@ def run_estimate_case(mut: ModelUnderTest, case, rnd):
 
 
 # ----------------------------------------------------------------------------------------------
-def run_gauge_case(config, xis_scaled, rnd, extreme=None):
+def run_gauge_case(config, xis_scaled, rnd, extreme=None, recenter=True, family="logistic", metric_terms=None):
     """Re-centring on a real state: trajectories, attachments, event likelihood unchanged; zero mean; orthogonality."""
-    rec = {"type": "gauge", "kind": "logistic", "form": "dict", "req": [["s1", "t1"]], "xis": list(xis_scaled), "config": config,
+    rec = {"type": "gauge", "kind": family, "form": "dict", "req": [["s1", "t1"]], "xis": list(xis_scaled), "config": config,
            "extreme": extreme or "-"}
     flags = dict(traj_same=False, attach_same=False, event_same=False, zero_mean=False, orthogonal=False)
     rec.update(flags, status="ok")
@@ -189,13 +189,28 @@ def run_gauge_case(config, xis_scaled, rnd, extreme=None):
             st.put_individual_latent_variables("samples", n_individuals=n)
             xi = torch.tensor([[0.35 * x + rnd.uniform(-0.05, 0.05)] for x in xis_scaled], dtype=st["xi"].dtype)
             if extreme == "xi":
-                xi[0, 0] = 4.8                          # one extreme progressor
+                xi[0, 0] = 6.5                          # one extreme progressor (far beyond any clipping range of the others)
             st["xi"] = xi
             # seeded population values
             for name in ("log_v0", "log_g", "g", "betas", "deltas"):
                 if name in st.dag and st.dag[name].is_settable and st._values[name] is not None:
                     v = st[name]
                     st[name] = v + torch.tensor(np.array([rnd.uniform(-0.4, 0.4) for _ in range(v.numel())]).reshape(v.shape), dtype=v.dtype)
+            if extreme == "tiny_v0":
+                # velocities at the lower end of what single precision separates from 0 (norms of 1e-7)
+                for name in ("log_v0", "xi_mean"):
+                    if name in st.dag and st.dag[name].is_settable and st._values[name] is not None and name != "xi_mean":
+                        v = st[name]
+                        st[name] = torch.full_like(v, -16.0) + torch.tensor(np.array([rnd.uniform(-0.3, 0.3) for _ in range(v.numel())]).reshape(v.shape), dtype=v.dtype)
+            if extreme == "staggered":
+                # features whose curves are far apart at the reference time (metric spread over several orders of magnitude)
+                for name, amp in (("deltas", 6.0), ("log_g", 5.5)):
+                    if name in st.dag and st.dag[name].is_settable and st._values[name] is not None:
+                        v = st[name]
+                        if v.numel() >= 2 or name == "deltas":
+                            vals = [amp * (1 if k % 2 == 0 else -1) + rnd.uniform(-0.3, 0.3) for k in range(v.numel())]
+                            st[name] = torch.tensor(np.array(vals).reshape(v.shape), dtype=v.dtype)
+                            break
             if extreme == "nu" and "n_log_nu" in st.dag:
                 st["n_log_nu"] = torch.full_like(st["n_log_nu"], -7.2)
             if "event" in st.dag:
@@ -242,7 +257,8 @@ def run_gauge_case(config, xis_scaled, rnd, extreme=None):
                     st.revert()
                 st.auto_fork_type = None
             before = snap()
-            model.compute_sufficient_statistics(st)       # re-centres xi (and compensates) in place
+            if recenter:
+                model.compute_sufficient_statistics(st)       # re-centres xi (and compensates) in place
             after = snap()
 
             def same(a, b):
@@ -251,16 +267,38 @@ def run_gauge_case(config, xis_scaled, rnd, extreme=None):
             # the attachment may move by what the accepted trajectory deviation allows (float32 conditioning of extreme states)
             rec["attach_same"] = bool(((before["attach"] - after["attach"]).abs() <= 1e-5 * (1 + before["attach"].abs()) + 4 * before["slack"]).all())
             rec["event_same"] = same(before["event"], after["event"])
-            rec["zero_mean"] = bool(abs(float(st["xi"].double().mean())) <= 1e-6)
+            rec["zero_mean"] = bool(abs(float(st["xi"].double().mean())) <= 1e-6) if recenter else True
             rec["gaps"] = [float((before[k] - after[k]).abs().max()) for k in ("traj", "attach", "event")]
-            if "mixing_matrix" in st.dag:
+            if "mixing_matrix" in st.dag and "orthonormal_basis" in st.dag:
                 A = st["mixing_matrix"].double()                   # (Ns, F)
-                msq = st["metric_sqr"].double().reshape(-1) if "metric_sqr" in st.dag else torch.ones(A.shape[1], dtype=torch.double)
-                v0 = st["v0"].double().reshape(-1) if "v0" in st.dag else None
-                if v0 is not None and v0.numel() == A.shape[1]:
-                    gv = msq * v0
-                    dots = (A * gv).sum(dim=1)
-                    rec["orthogonal"] = bool((dots.abs() <= 1e-5 * (A.norm(dim=1) * gv.norm() + 1e-12)).all())
+                # direction of progression and metric: the two inputs of the model's orthonormal basis
+                nf = A.shape[1]
+                if metric_terms is not None:
+                    # metric and direction from the specification's terms, evaluated per feature at the state's own g, v0, deltas
+                    gs = st["g"].double().reshape(-1) if "g" in st.dag else torch.ones(nf, dtype=torch.double)
+                    gs = gs if gs.numel() == nf else gs.expand(nf)
+                    v0s = st["v0"].double().reshape(-1) if "v0" in st.dag else torch.ones(nf, dtype=torch.double)
+                    v0s = v0s if v0s.numel() == nf else v0s.expand(nf)
+                    dl = st["deltas_padded"].double().reshape(-1) if "deltas_padded" in st.dag else torch.zeros(nf, dtype=torch.double)
+                    envs = [{"g": float(gs[f]), "v0": float(v0s[f]), "delta": float(dl[f])} for f in range(nf)]
+                    msq = torch.tensor([ev(metric_terms[0], e) for e in envs], dtype=torch.double)
+                    d = torch.tensor([ev(metric_terms[1], e) for e in envs], dtype=torch.double)
+                else:
+                    anc = sorted(st.dag.direct_ancestors["orthonormal_basis"])
+                    mname = next((a for a in anc if "metric" in a), None)
+                    dname = next((a for a in anc if a != mname), None)
+                    msq = st[mname].double().reshape(-1) if mname else torch.ones(nf, dtype=torch.double)
+                    d = st[dname].double().reshape(-1) if dname else None
+                if d is not None and d.numel() == A.shape[1]:
+                    msq = msq if msq.numel() == d.numel() else msq.expand(d.numel())
+                    gd = msq * d
+                    dots = (A * gd).sum(dim=1)
+                    # cosine, in the metric, between every row and the direction of progression
+                    na = ((A * msq * A).sum(dim=1)).clamp(min=0).sqrt()
+                    nd = float((d * msq * d).sum().clamp(min=0).sqrt())
+                    cos = dots.abs() / (na * nd + 1e-300)
+                    rec["orthogonal"] = bool((cos <= 1e-4).all()) and bool(torch.isfinite(A).all())
+                    rec["gaps"] = rec.get("gaps", []) + [float(cos.max())]
                 else:
                     rec["orthogonal"] = True
             else:
